@@ -192,6 +192,8 @@ def families(tier, seed):
             def run(sh=sh, fml=fml, ops=ops):
                 return harness.verify(bn.h_formula(fml, with_ops=ops), sh, kind='automaton')
             out.append(dict(name=f'add_expr primed use of a registered operator [{cname}] {fml}', run=run, label='per-shape'))
+    from contracts import optdiff as _od
+    out.append(dict(name='same results with assert statements stripped (python -O), section C06', run=_od.family('C06'), label='bounded'))
     return out
 
 
